@@ -45,7 +45,9 @@ fn subprocess_result(mut args: Args) -> Result<i32> {
             let linker = crate::Linker::new();
             let _outputs = linker.run(&args, &thread_pool)?;
             crate::timing::finalise_perfetto_trace()?;
+            crate::verif_phase!("verif: child before inform");
             inform_parent_done(&fds);
+            crate::verif_phase!("verif: child after inform");
             Ok(0)
         }
         -1 => {
@@ -56,6 +58,7 @@ fn subprocess_result(mut args: Args) -> Result<i32> {
         }
         pid => {
             // Fork success in the parent - wait for the child to "signal" us it's done
+            crate::verif_phase!("verif: parent waiting");
             let exit_status = wait_for_child_done(&fds, pid);
             Ok(exit_status)
         }
